@@ -15,8 +15,8 @@ echo $ids | tr ' ' '\n' | xargs -P $par -I{} sh -c 'id={}; p=${id%%-*}; d=/verif
   r=$(grep VIOLATION $d/detect-$p.log | grep -o "replay=[^ ]*" | head -1 | cut -d= -f2); [ -n "$r" ] && [ -f "$r" ] && cp "$r" $d/replay-$p.json
   sed -i "s#'$snap'#/verif#g" $d/detect-$p.log
   echo "== $id $p: $(grep -E "VIOLATION|exit=" $d/detect-$p.log | cut -c1-160 | tr "\n" " ")"
-  # the per-tree caches of finished seeds (0.7 GB each) are dropped as the run goes: the twelve newest stay (by count, not
+  # the per-tree caches of finished seeds (0.7 GB each) are dropped as the run goes: the forty newest stay (by count, not
   # by age: the sandbox clock is unreliable)
-  (cd '$snap'/.cache && ls -td */ 2>/dev/null | tail -n +13 | xargs -r rm -rf)
+  (cd '$snap'/.cache && ls -td */ 2>/dev/null | tail -n +41 | xargs -r rm -rf)
   git -C /repo worktree remove --force $wt'
 git -C /verif worktree remove --force $snap
